@@ -100,6 +100,12 @@ class LanguageClassesFactory:
             assoc_json_subentry = create_association_entry(assoc)
             subentry_name = assoc.name + '_' + assoc.left_field.asset.name + '_' \
                 + assoc.right_field.asset.name
+            if subentry_name in self.json_schema['definitions']\
+                    ['LanguageAssociation']['definitions'][assoc.name]\
+                    ['definitions']:
+                # Same name and same assets, the fieldnames tell them apart.
+                subentry_name += '_' + assoc.left_field.fieldname + '_' \
+                    + assoc.right_field.fieldname
 
             logger.info('Creating %s subentry association.', subentry_name)
             assoc_json_subentry['title'] = subentry_name
